@@ -310,20 +310,16 @@ ValueError, `some true` = accepted), so the accept / reject theorems above hold 
 spectra model performs.  Helper lemmas: Proofs/Lemmas/ComposeShapes.lean. -/
 theorem spectra_shape_checks_are_support_routines :
     (∀ s, Spectra.ensure2d s = ensure2d s) ∧
-    (∀ s0 rest, ComposeShapes.toExcept (Spectra.equalDimsAll (s0 :: rest)) = ensureEqualDims (s0 :: rest) none) ∧
-    (∀ s0 rest d, ComposeShapes.toExcept (Spectra.equalDimsAt (s0 :: rest) d) = ensureEqualDims (s0 :: rest) (some d)) :=
-  ⟨ComposeShapes.ensure2d_agree, ComposeShapes.equalDimsAll_agree, ComposeShapes.equalDimsAt_agree⟩
+    (∀ ss, ComposeShapes.toExcept (Spectra.equalDimsAll ss) = ensureEqualDims ss none) ∧
+    (∀ ss d, ComposeShapes.toExcept (Spectra.equalDimsAt ss d) = ensureEqualDims ss (some d)) :=
+  ⟨ComposeShapes.ensure2d_agree, ComposeShapes.equalDimsAll_agree_all, ComposeShapes.equalDimsAt_agree_all⟩
 
-/-- The agreement is stated for a non-empty list of arrays on purpose: on the empty list the two
-    models differ (negation witness).  Against the code (`ensure_equal_dims([], [], f, dim)`):
-    `dim=None` raises IndexError (`to_check[0]`) — this model is right, the spectra copy is not;
-    `dim=d` passes silently — the spectra copy is right, this model (`IndexError`) is not.
-    Neither model is ever applied to an empty list by its property (C19's theorems quantify over
-    `s0 :: rest`, the spectra model passes two or three shapes). -/
-theorem spectra_shape_checks_empty_list_differ :
-    ComposeShapes.toExcept (Spectra.equalDimsAll []) ≠ ensureEqualDims [] none ∧
-    ∀ d, ComposeShapes.toExcept (Spectra.equalDimsAt [] d) ≠ ensureEqualDims [] (some d) :=
-  ComposeShapes.empty_list_differs
+/-- The empty list of arrays (`ensure_equal_dims([], [], f, dim)`): IndexError for `dim=None`, silent pass
+    for a given `dim` — as the code does.  The two independently written models originally disagreed here
+    (each was wrong in one of the two cases); the composition proof exposed it and the real code decided. -/
+theorem ensure_equal_dims_empty_list :
+    ensureEqualDims [] none = .error .indexError ∧ ∀ d, ensureEqualDims [] (some d) = .ok () :=
+  ⟨rfl, fun _ => rfl⟩
 
 example : ComposeShapes.toExcept (Spectra.equalDimsAt [[7, 2], [7, 2, 3], [6, 2, 3]] 0) = .error .valueError := rfl
 example : ComposeShapes.toExcept (Spectra.equalDimsAll [[7, 2], [7]]) = .error .indexError := rfl
